@@ -44,32 +44,46 @@ def parseSegs : Nat → Nat → List String → Option (List Seg × List String)
     | none => none
 end
 
+/-- `<digit>[<mode letter>]` after `R`/`V`; `seq` = the preorder index of the route (identity of its
+`StaticRoute`) -/
+def countMode? (seq : Nat) : List Char → Option (Nat × Mode)
+  | [c] => (digit? [c]).map fun n => (n, .outOfOrder)
+  | [c, m] =>
+    match digit? [c], m with
+    | some n, 'p' => some (n, .partiallyBlocked)
+    | some n, 'i' => some (n, .inOrder)
+    | some n, 'a' => some (n, .async)
+    | some n, 's' => some (n, .static seq false)
+    | some n, 'g' => some (n, .static seq true)
+    | _, _ => none
+  | _ => none
+
 mutual
-def parseRoute : Nat → List String → Option (Route × List String)
-  | 0, _ => none
-  | _, [] => none
-  | f + 1, tok :: rest =>
+def parseRoute : Nat → Nat → List String → Option (RouteM × List String × Nat)
+  | 0, _, _ => none
+  | _, _, [] => none
+  | f + 1, seq, tok :: rest =>
     match tok.toList with
     | k :: body =>
-      match digit? body with
-      | some n =>
+      match countMode? seq body with
+      | some (n, mode) =>
         if (k = 'R' ∧ n ≤ 4) ∨ (k = 'V' ∧ n ≤ 8) then
           match parseSeg (2 * rest.length + 8) rest with
-          | some (s, r) => (parseRoutes f n r).map fun (cs, r') => (.mk s cs, r')
+          | some (s, r) => (parseRoutes f (seq + 1) n r).map fun (cs, r', q) => (.mk s mode cs, r', q)
           | none => none
         else none
       | none => none
     | [] => none
-def parseRoutes : Nat → Nat → List String → Option (List Route × List String)
-  | _, 0, rest => some ([], rest)
-  | 0, _ + 1, _ => none
-  | f + 1, n + 1, rest =>
-    match parseRoute f rest with
-    | some (c, r) => (parseRoutes f n r).map fun (l, r') => (c :: l, r')
+def parseRoutes : Nat → Nat → Nat → List String → Option (List RouteM × List String × Nat)
+  | _, seq, 0, rest => some ([], rest, seq)
+  | 0, _, _ + 1, _ => none
+  | f + 1, seq, n + 1, rest =>
+    match parseRoute f seq rest with
+    | some (c, r, q) => (parseRoutes f q n r).map fun (l, r', q') => (c :: l, r', q')
     | none => none
 end
 
-def parseDefs (base tree : String) : Option Defs := do
+def parseDefs (base tree : String) : Option DefsM := do
   let b ← if base == "~" then some none else (pathOfHex base).map some
   match tree.splitOn "," with
   | top :: rest =>
@@ -77,8 +91,8 @@ def parseDefs (base tree : String) : Option Defs := do
     | k :: body =>
       let n ← digit? body
       if n ≥ 1 ∧ ((k = 'T' ∧ n ≤ 4) ∨ (k = 'V' ∧ n ≤ 8)) then
-        match parseRoutes (2 * rest.length + 8) n rest with
-        | some (tops, []) => some ⟨b, tops⟩
+        match parseRoutes (2 * rest.length + 8) 0 n rest with
+        | some (tops, [], _) => some ⟨b, tops⟩
         | _ => none
       else none
     | [] => none
@@ -93,6 +107,22 @@ def showFSeg : FSeg → String
 def showFlat (rs : List (List FSeg)) : String :=
   if rs.isEmpty then "!" else
   "|".intercalate (rs.map fun r => if r.isEmpty then "_" else ".".intercalate (r.map showFSeg))
+
+def showMode : Mode → String
+  | .outOfOrder => "o" | .partiallyBlocked => "p" | .inOrder => "i" | .async => "a"
+  | .static id _ => s!"s{id}"
+
+def showMethods (ms : List Method) : String :=
+  if ms.isEmpty then "-" else
+  -- sorted initials: A(patch) D(elete) G(et) P(ost) U(put)
+  String.join ([(Method.patch, "A"), (.delete, "D"), (.get, "G"), (.post, "P"), (.put, "U")].filterMap
+    fun (m, s) => if ms.contains m then some s else none)
+
+def showGen (gs : List GenRoute) : String :=
+  if gs.isEmpty then "!" else
+  "|".intercalate (gs.map fun g =>
+    (if g.segments.isEmpty then "_" else ".".intercalate (g.segments.map showFSeg)) ++ "@" ++ showMode g.mode ++ "~" ++
+    (if g.regen.isEmpty then "-" else ".".intercalate (g.regen.map toString)) ++ "~" ++ showMethods g.methods)
 
 def showParams (p : Params) : String :=
   if p.isEmpty then "-" else
@@ -136,11 +166,15 @@ def step (st : St) (line : String) : St × String :=
   | ["routes", base, tree] =>
     match parseDefs base tree with
     | none => (st, "bad-op")
-    | some d =>
+    | some dm =>
+      -- the table with its modes; everything else works on the mode-free tree
+      -- (C14_ssr_mode_path_independent: same segment lists)
+      let gens := genMList dm.tops
+      let d := dm.erase
       let flat := genList d.tops
       let exp := flat.flatMap expandOptionals
       let v := if expandOk flat then "ok" else "fail expand"
-      ({ defs := some d }, s!"flat {showFlat flat} exp {showFlat exp} ## {v}")
+      ({ defs := some d }, s!"flat {showGen gens} exp {showFlat exp} ## {v}")
   | ["match", p] =>
     match pathOfHex p, st.defs with
     | some path, some d =>
